@@ -118,22 +118,31 @@ def union(db, ctx):
 def boundaries(db, ctx):
     f = db.one("collect_boundaries", "CharacterCategory")
     got = {}
-    cont = None
+    types = set()
+    in_cond = set()
     for n, ps in walk(f.hir):
-        if n.get("k") == "MethodCall" and n.get("method") in ("insert", "push", "extend", "extend_from_slice"):
-            for a in n.get("args", []):
-                for x, _ in walk(a):
-                    if x.get("k") == "Field" and "CatRange" in (x.get("adt") or "") and x.get("name") in ("begin", "end"):
-                        pcs = [c for c in (path_conditions(n.get("id"), f.hir) or [])]
-                        got.setdefault(x["name"], []).append(not pcs)
-                        cont = n.get("rty") or cont
+        if n.get("k") == "If" and isinstance(n.get("cond"), dict):
+            in_cond |= {id(x) for x, _ in walk(n["cond"])}
+    for n, ps in walk(f.hir):
+        if id(n) in in_cond:
+            continue        # a mention inside a test is not a value put into the table
+        for key in ("ty", "rty"):
+            if n.get(key):
+                types.add(n[key])
+        if n.get("k") == "Let" and isinstance(n.get("pat"), dict) and n["pat"].get("ty"):
+            types.add(n["pat"]["ty"])
+        if n.get("k") == "Field" and "CatRange" in (n.get("adt") or "") and n.get("name") in ("begin", "end"):
+            pcs = path_conditions(n.get("id"), f.hir) or []
+            got.setdefault(n["name"], []).append(not pcs)
     for fld in ("begin", "end"):
         ok = any(got.get(fld, []))
-        ctx.ob("every-line|%s" % fld, ok, "collect_boundaries inserts `%s` of every line unconditionally: %s" % (fld, got.get(fld)), fn=f)
-    ordered = "BTreeSet" in (cont or "")
+        ctx.ob("every-line|%s" % fld, ok, "collect_boundaries takes `%s` of every line unconditionally: %s" % (fld, got.get(fld)), fn=f)
+    ordered = any("BTreeSet<u32" in t for t in types)
+    cont = "BTreeSet<u32>" if ordered else None
     if not ordered:
         ms = {n.get("method") for n, _ in walk(f.hir) if n.get("k") == "MethodCall"}
         ordered = bool(ms & {"sort", "sort_unstable"}) and "dedup" in ms
+        cont = "sorted + dedup Vec" if ordered else None
     ctx.ob("ordered-unique", ordered, "the boundaries are collected in %s (must be ordered and duplicate-free: the table is searched by bisection)" % (cont,), fn=f)
     # filters / take / skip on the iteration would drop lines
     bad = [n.get("method") for n, _ in walk(f.hir) if n.get("k") == "MethodCall" and n.get("method") in ("filter", "take", "skip", "step_by", "take_while", "skip_while", "filter_map")]
@@ -245,10 +254,12 @@ def half_open(db, ctx):
     v = db.view(f, depth=2, keep=("collect_boundaries",))
     is_bvec = lambda r: "Vec<u32>" in (peel(r).get("ty") or "") or "[u32]" in (peel(r).get("ty") or "") or peel(r).get("name") == "boundaries"
     so = _search_offsets(v.hir, is_bvec)
-    if not so:
-        raise AnchorMissing("match on boundaries.binary_search(..) in compile")
-    ctx.ob("compile|start-interval", so[0] == 1, "compile: a line starting at boundary i is applied from interval i+%s on (must be i+1: categories[i] is the interval that "
-                                                  "ENDS at boundary i)" % so[0], fn=f)
+    if so and so[0] is not None:
+        ctx.ob("compile|start-interval", so[0] == 1, "compile: a line starting at boundary i is applied from interval i+%s on (must be i+1: categories[i] is the interval that "
+                                                      "ENDS at boundary i)" % so[0], fn=f)
+    else:
+        so = None
+        ctx.ob("compile|start-interval", True, "compile: the start interval is not written as `match binary_search {Ok(i) => i + k}` — not decided in this form", fn=f, nontrivial=False)
     acc = [n for n, _ in walk(v.hir) if n.get("k") in ("Assign", "AssignOp") and _is_ct_elem(n["l"])[0] and _mentions_line_classes(n["r"])]
     if not acc:
         raise AnchorMissing("accumulating write in compile")
@@ -257,15 +268,17 @@ def half_open(db, ctx):
         is_end = lambda n: peel(n).get("k") == "Field" and peel(n).get("name") == "end" and "CatRange" in (peel(n).get("adt") or "")
         ev = bound_cmp_evaluator(is_end, point)
         reach[point] = holds_at(path_conditions(acc[0].get("id"), v.hir), ev)
-    ok = reach[-1] is not False and reach[0] is not False and reach[1] is False
-    ctx.ob("compile|applied-while-boundary<=end", ok, "compile: the line's classes are applied to interval i at boundaries[i] − end = −1 / 0 / +1: %s (must be yes / yes / no: "
-                                                      "the interval ending AT the exclusive end is the last covered one)" % [reach[p] for p in (-1, 0, 1)], fn=f)
+    # only DEFINITE deviations alarm: a loop bound written in a form the path conditions do not expose (take_while closure, iterator
+    # adaptor) evaluates to None and is reported as not decided
+    bad = reach[0] is False or reach[-1] is False or reach[1] is True
+    ctx.ob("compile|applied-while-boundary<=end", not bad, "compile: the line's classes are applied to interval i at boundaries[i] − end = −1 / 0 / +1: %s (must be yes / yes / no: "
+                                                           "the interval ending AT the exclusive end is the last covered one; None = not decided in this form)" % [reach[p] for p in (-1, 0, 1)], fn=f)
     g = db.one("get_category_types", "CharacterCategory")
     is_bfield = lambda r: peel(r).get("k") == "Field" and peel(r).get("name") == "boundaries"
     so2 = _search_offsets(g.hir, is_bfield)
     if not so2:
         raise AnchorMissing("match on self.boundaries.binary_search(..) in get_category_types")
-    ctx.ob("lookup|offsets", (so2[0], so2[1]) == (1, 0) and so2[0] == so[0],
+    ctx.ob("lookup|offsets", (so2[0], so2[1]) == (1, 0) and (so is None or so2[0] == so[0]),
            "get_category_types selects categories[i+%s] when the code point is boundary i and categories[i+%s] when it would be inserted at i (must be +1 / +0, "
-           "the offsets compile uses: +%s)" % (so2[0], so2[1], so[0]), fn=g)
-    ctx.floor(6)
+           "the offsets compile uses: %s)" % (so2[0], so2[1], so and so[0]), fn=g)
+    ctx.floor(5)
